@@ -44,7 +44,10 @@ def k_engines(ctx, seqs, k, engines, tag=None):
     results = {}
     for name in engines:
         fn = S.engine(name)
-        out = ctx.call(fn, list(seqs), max_edits=k)
+        if (len(seqs) + k) % 3 == 0:
+            out = ctx.call(fn, list(seqs), k)             # positional max_edits
+        else:
+            out = ctx.call(fn, list(seqs), max_edits=k)
         ctx.count(f"{name}_calls")
         if k >= 2:
             ctx.count(f"{name}_k>=2")
